@@ -2,7 +2,7 @@
    Scope of the proved core: BOOL and the eight integer kinds, assignment, IF/ELSIF, CASE, FOR,
    WHILE, REPEAT, EXIT, CONTINUE; programs accepted by the strict discipline T (Model/StTyping.v). *)
 From Coq Require Import ZArith List Bool.
-From TP Require Import Model.StCore Model.StTyping Proofs.StProofs Model.StCalls Proofs.StCallsProofs Proofs.StCallsTyping.
+From TP Require Import Model.StCore Model.StTyping Proofs.StProofs Model.StCalls Proofs.StCallsProofs Proofs.StCallsTyping Proofs.StArrays.
 Import ListNotations.
 Open Scope Z_scope.
 
@@ -143,3 +143,83 @@ Print Assumptions negative_literal_in_unsigned_context_refuted.
 Print Assumptions fb_call_changes_only_instance_and_outputs.
 Print Assumptions fb_call_sound.
 Print Assumptions fb_call_typing_rule.
+
+(* ---- arrays (one-dimensional integer arrays: EIdx element read, SAssignIdx element write; Proofs/StArrays.v) ---- *)
+(* an element read that succeeds has read a slot of the array - whatever the index expression is, typed or not *)
+Theorem index_in_bounds_or_fault : forall o s b lo n ki i v, eval o s (EIdx b lo n ki i) = Ok v ->
+  exists z x, (iv <- eval o s i ;; int_value iv) = Ok z /\ lo <= z <= lo + Z.of_nat n - 1 /\
+    x = (b + Z.to_nat (z - lo))%nat /\ (b <= x < b + n)%nat /\ rd s x = Ok v.
+Proof. exact StArrays.index_in_bounds_or_fault. Qed.
+Theorem index_out_of_bounds_faults : forall o s b lo n ki i iv z, eval o s i = Ok iv -> int_value iv = Ok z ->
+  z < lo \/ lo + Z.of_nat n - 1 < z -> eval o s (EIdx b lo n ki i) = Fault FIndexOOB.
+Proof. exact StArrays.index_out_of_bounds_faults. Qed.
+(* an element write that completes has changed at most one slot, a slot of the array; nothing else, and the store keeps its size *)
+Theorem element_write_local : forall o ev ex fuel depth s b lo n ki i e s' sig,
+  step o ev ex fuel depth s (SAssignIdx b lo n ki i e) = Ok (s', sig) ->
+  exists z x, (iv <- ev s i ;; int_value iv) = Ok z /\ lo <= z <= lo + Z.of_nat n - 1 /\
+    x = (b + Z.to_nat (z - lo))%nat /\ (b <= x < b + n)%nat /\
+    (forall y, y <> x -> nth_error s' y = nth_error s y) /\ length s' = length s /\ sig = GNormal.
+Proof. exact StArrays.element_write_local. Qed.
+Theorem element_write_local_exec : forall o fuel depth s b lo n ki i e s' sig,
+  exec o fuel depth s (SAssignIdx b lo n ki i e) = Ok (s', sig) ->
+  exists z x, (iv <- eval o s i ;; int_value iv) = Ok z /\ lo <= z <= lo + Z.of_nat n - 1 /\
+    x = (b + Z.to_nat (z - lo))%nat /\ (b <= x < b + n)%nat /\
+    (forall y, y <> x -> nth_error s' y = nth_error s y) /\ length s' = length s /\ sig = GNormal.
+Proof. exact StArrays.element_write_local_exec. Qed.
+(* well-typed accesses: the read gives an in-range integer of exactly the element kind, the write a declaration-conforming store
+   and a normal completion - or a value-dependent fault, which is exactly IndexOutOfBounds when the index leaves the declared bounds *)
+Theorem array_access_sound : forall o strict,
+  o_neg_checked o = true -> o_for_checked o = true -> o_coerce_write o = true \/ strict = true -> o_case_unsigned o = true ->
+  forall G s, store_ok G s = true -> forall b lo n ki i,
+  (forall k, tint strict G k (EIdx b lo n ki i) = true ->
+     benign (eval o s (EIdx b lo n ki i)) (fun v => exists z, v = VInt k z /\ in_range k z = true) /\
+     (forall k' z, eval o s i = Ok (VInt k' z) -> z < lo \/ lo + Z.of_nat n - 1 < z ->
+        eval o s (EIdx b lo n ki i) = Fault FIndexOOB)) /\
+  (forall e il fuel depth, tstmt strict G il (SAssignIdx b lo n ki i e) = true ->
+     benign (exec o fuel depth s (SAssignIdx b lo n ki i e)) (fun r => store_ok G (fst r) = true /\ snd r = GNormal) /\
+     (forall v k' z, eval o s e = Ok v -> eval o s i = Ok (VInt k' z) -> z < lo \/ lo + Z.of_nat n - 1 < z ->
+        exec o (S fuel) depth s (SAssignIdx b lo n ki i e) = Fault FIndexOOB)).
+Proof. exact StArrays.array_access_sound. Qed.
+Theorem array_index_in_bounds_reads : forall o strict, o_neg_checked o = true -> forall G s k b lo n ki i, store_ok G s = true ->
+  tint strict G k (EIdx b lo n ki i) = true ->
+  forall k' z, eval o s i = Ok (VInt k' z) -> lo <= z <= lo + Z.of_nat n - 1 ->
+  exists ze, eval o s (EIdx b lo n ki i) = Ok (VInt k ze) /\ in_range k ze = true /\
+             nth_error s (b + Z.to_nat (z - lo)) = Some (VInt k ze).
+Proof. exact StArrays.array_index_in_bounds_reads. Qed.
+(* a constant index is checked statically (T accepts a literal index only inside the declared bounds): that read cannot fault *)
+Theorem array_literal_index_reads : forall o strict, o_neg_checked o = true -> forall G s k b lo n ki u v, store_ok G s = true ->
+  tint strict G k (EIdx b lo n ki (ELit u v)) = true ->
+  exists k' z ze, v = VInt k' z /\ lo <= z <= lo + Z.of_nat n - 1 /\
+    eval o s (EIdx b lo n ki (ELit u v)) = Ok (VInt k ze) /\ in_range k ze = true /\
+    nth_error s (b + Z.to_nat (z - lo)) = Some (VInt k ze).
+Proof. exact StArrays.array_literal_index_reads. Qed.
+(* j : INT := 2;  a : ARRAY[-1..1] OF INT := [10, 20, 30] at slots 1..3;  r : INT *)
+Example array_nonvacuous :
+  let G := [TInt KInt; TInt KInt; TInt KInt; TInt KInt; TInt KInt] in
+  let s := [VInt KInt 2; VInt KInt 10; VInt KInt 20; VInt KInt 30; VInt KInt 0] in
+  let a := EIdx 1 (-1) 3 KInt in
+  let lit := fun z => ELit false (VInt KInt z) in
+  let body := [SAssignIdx 1 (-1) 3 KInt (lit 0) (lit 42); SAssign 4 (EBin BAdd (a (lit (-1))) (a (lit 1)))] in
+  let body_oob := body ++ [SAssign 4 (a (EVar 0))] in
+  let write_oob := [SAssignIdx 1 (-1) 3 KInt (EVar 0) (lit 1)] in
+  store_ok G s = true /\ tprogram true G body = true /\ tprogram true G body_oob = true /\ tprogram true G write_oob = true /\
+  tprogram true G [SAssign 4 (a (lit 2))] = false /\ tprogram true G [SAssignIdx 1 (-1) 3 KInt (lit (-2)) (lit 1)] = false /\
+  eval o_code s (a (lit (-1))) = Ok (VInt KInt 10) /\ eval o_code s (a (lit 1)) = Ok (VInt KInt 30) /\
+  eval o_code s (a (lit 2)) = Fault FIndexOOB /\ eval o_code s (a (lit (-2))) = Fault FIndexOOB /\
+  run_program o_code 10 s body = Ok [VInt KInt 2; VInt KInt 10; VInt KInt 42; VInt KInt 30; VInt KInt 40] /\
+  run_program o_fixed 10 s body = Ok [VInt KInt 2; VInt KInt 10; VInt KInt 42; VInt KInt 30; VInt KInt 40] /\
+  run_program o_code 10 s body_oob = Fault FIndexOOB /\
+  run_program o_code 10 s write_oob = Fault FIndexOOB /\
+  StRef.run_ref G 10 s body = Ok [VInt KInt 2; VInt KInt 10; VInt KInt 42; VInt KInt 30; VInt KInt 40] /\
+  StRef.run_ref G 10 s body_oob = Fault FIndexOOB /\ StRef.run_ref G 10 s write_oob = Fault FIndexOOB /\
+  store_ok G [VInt KInt 2; VInt KInt 10; VInt KInt 42; VInt KInt 30; VInt KInt 40] = true.
+Proof. exact StArrays.array_nonvacuous. Qed.
+
+Print Assumptions index_in_bounds_or_fault.
+Print Assumptions index_out_of_bounds_faults.
+Print Assumptions element_write_local.
+Print Assumptions element_write_local_exec.
+Print Assumptions array_access_sound.
+Print Assumptions array_index_in_bounds_reads.
+Print Assumptions array_literal_index_reads.
+Print Assumptions array_nonvacuous.
